@@ -134,7 +134,7 @@ theorem agreed_is_mutual (p : Params) (v s n : Nat) (h : negotiate p = .ok v s n
           simp only [hca, Outcome.ok.injEq] at h
           obtain ⟨rfl, rfl, rfl⟩ := h
           have hmode : p.mode ≠ .gm := by
-            intro hmm; rw [hmm] at hd; simp [dispatch] at hd
+            intro hmm; rw [hmm] at hd; simp only [dispatch] at hd; split at hd <;> cases hd
           have hps : su ∈ cs ∧ su ∈ p.ssuites.getD tlsDefaultList ∧ tlsServable p.scert v0 su = true := by
             by_cases hpr : p.prefer = true
             · simp only [hpr, if_true] at hpick
@@ -201,6 +201,18 @@ theorem no_cross_protocol (p : Params) :
       rcases (agreed_is_mutual p v s n hn).2.1 with ⟨h, _⟩ | ⟨_, h, _⟩
       · exact absurd h hc
       · exact absurd hm h
+
+/-- the GMSSL-only server (repaired, `readClientHello`): the GMSSL handshake runs exactly for ClientHello version
+    0x0101; every other version is rejected, and it never runs the TLS handshake — the same routing as the
+    auto-switch server's for the GMSSL code (`auto_dispatch`) -/
+theorem gm_only_dispatch (v : Nat) :
+    (dispatch .gm v = .gm ↔ v = 0x0101) ∧ (dispatch .gm v = .reject ↔ v ≠ 0x0101) ∧ dispatch .gm v ≠ .tls := by
+  have e1 : Gen.TLS.versionGMSSL = 0x0101 := by decide
+  unfold dispatch
+  simp only [e1]
+  by_cases h1 : v = 0x0101
+  · subst h1; simp
+  · simp [h1]
 
 /-- the auto-switch server runs the GMSSL handshake exactly for ClientHello version 0x0101, the TLS handshake
     exactly for 0x0300..0x0303, and rejects every other version (all 65536 values) -/
